@@ -7,18 +7,18 @@
 (***************************************************************************)
 EXTENDS Argv
 CONSTANTS Tokens, SshBox, DockerBox     \* boxes: <<UA, HA, UB, HB>> given as sets of 4-tuples is not possible in cfg: see below
-VARIABLES form, usr, hst
-vars == <<form, usr, hst>>
+VARIABLES route, form, usr, hst
+vars == <<route, form, usr, hst>>
 
 Strs(n) == UNION {[1..k -> Tokens] : k \in 0..n}
 InBox(b, u, h) == Len(h) >= 1 /\ ((Len(u) <= b[1] /\ Len(h) <= b[2]) \/ (Len(u) <= b[3] /\ Len(h) <= b[4]))
 Max(a, b) == IF a > b THEN a ELSE b
 BoxOf(f) == IF f = "ssh" THEN SshBox ELSE DockerBox
 
-X0 == [user |-> "", host |-> "", cmd |-> "agent synchronizer", src |-> "agent-bin", remote |-> ".agent-remote",
-       home |-> "/root", local |-> "/scratch/agent-bin"]
+X0 == [user |-> "", host |-> "", cmd |-> "agent synchronizer", words |-> <<"agent", "synchronizer">>, src |-> "agent-bin",
+       remote |-> ".agent-remote", home |-> "/root", local |-> "/scratch/agent-bin"]
 
-Init == /\ form \in {"ssh", "docker"}
+Init == /\ route \in {"parse", "raw"} /\ form \in {"ssh", "docker"}
         /\ \E b \in {BoxOf(form)} :
              /\ usr \in Strs(Max(b[1], b[3]))
              /\ hst \in Strs(Max(b[2], b[4]))
@@ -26,5 +26,5 @@ Init == /\ form \in {"ssh", "docker"}
 Next == UNCHANGED vars
 Spec == Init /\ [][Next]_vars
 
-InvC36 == ModelOK(form, usr, hst, <<"/", "h">>, <<"/", "w">>, [DOCKER_HOST |-> "tcp://dh:1"], X0)
+InvC36 == ModelOK(route, form, usr, hst, <<"/", "h">>, <<"/", "w">>, [DOCKER_HOST |-> "tcp://dh:1"], X0)
 ====
